@@ -25,7 +25,7 @@ fn field_chars() -> &'static [char] {
                 v.push(c as char);
             }
         }
-        v.extend(['😀', '\u{1}', '\u{7f}', '\u{a0}', '\u{0}', '\u{b}', '\u{301}', '１', 'ｅ']);
+        v.extend(['😀', '\u{1}', '\u{7f}', '\u{a0}', '\u{0}', '\u{b}', '\u{301}', '１', 'ｅ', 'à', 'Å']);
         v
     })
 }
@@ -304,7 +304,7 @@ fn attr_chars(d: Dialect) -> &'static [char] {
                 v.push(c);
             }
         }
-        v.extend(['é', '中', '😀', '\u{a0}', '\u{7f}', '\u{1}', '\u{301}', '１']);
+        v.extend(['é', '中', '😀', '\u{a0}', '\u{7f}', '\u{1}', '\u{301}', '１', 'à', 'Å']);
         v
     };
     match d {
@@ -1591,6 +1591,22 @@ fn garbage(w: &W, fmt: Fmt) -> Verdict {
                     img.remove(pos);
                 }
             }
+        }
+        if w.chance(1, 30) {
+            // a long run of one structural byte: thousands of empty lines, tabs, quotes, ';' or '='
+            let n = match w.draw(8) {
+                0 => 1usize << 20,
+                1 | 2 => 4096 + w.draw(8192) as usize,
+                _ => 70_000,
+            };
+            let b = *w.pick(b"\n\t\"#;= ,\r");
+            let at = match w.draw(3) {
+                0 => 0,
+                1 => img.len(),
+                _ => w.draw(img.len() as u64 + 1) as usize,
+            };
+            img.splice(at..at, std::iter::repeat(b).take(n));
+            w.probe("garbage_with_long_run_of_one_byte");
         }
         w.fired("corrupt");
     }
